@@ -99,12 +99,14 @@ type SpecDB struct {
 	Axioms    []Clause
 	Methods   map[string]bool // pure interface methods
 	Globals   map[string]string
+	FuncTypes map[string]bool
+	MethodDefs map[string]*SpecFun
 	Files     []string
 	Markers   []string // trusted/assume markers found
 }
 
 func NewSpecDB() *SpecDB {
-	return &SpecDB{Contracts: map[string]*Contract{}, Externs: map[string]*Contract{}, Funs: map[string]*SpecFun{}, UFuns: map[string]*UFun{}, Consts: map[string]string{}, Methods: map[string]bool{}, Globals: map[string]string{}}
+	return &SpecDB{Contracts: map[string]*Contract{}, Externs: map[string]*Contract{}, Funs: map[string]*SpecFun{}, UFuns: map[string]*UFun{}, Consts: map[string]string{}, Methods: map[string]bool{}, Globals: map[string]string{}, FuncTypes: map[string]bool{}, MethodDefs: map[string]*SpecFun{}}
 }
 
 type specLine struct {
@@ -181,7 +183,31 @@ func (db *SpecDB) LoadSpecFile(path string) error {
 			cur = &Contract{Kind: "extern", Name: name, Params: params, Results: results, Loops: map[int][]Clause{}, File: l.file, Line: l.line, Trusted: true}
 			db.Externs[name] = cur
 			db.Markers = append(db.Markers, "extern "+name)
+		case "functype":
+			// functype <pkg.Type> pure : calls through values of this named func type are pure, deterministic
+			f := strings.Fields(rest)
+			if len(f) >= 1 {
+				db.FuncTypes[f[0]] = true
+				db.Markers = append(db.Markers, "pure-functype "+f[0])
+			}
+			cur = nil
 		case "method":
+			// method Iface.M pure            | method Iface.M(p1, p2) = <expr over recv and params>
+			if eq := strings.Index(rest, "="); eq >= 0 && strings.Contains(rest[:eq], "(") {
+				name, params, _, err := parseSig(strings.TrimSpace(rest[:eq]))
+				if err != nil {
+					return fail(err)
+				}
+				body, err := ParseExpr(rest[eq+1:])
+				if err != nil {
+					return fail(err)
+				}
+				db.Methods[name] = true
+				db.MethodDefs[name] = &SpecFun{Name: name, Params: params, Body: body}
+				db.Markers = append(db.Markers, "defined-method "+name)
+				cur = nil
+				break
+			}
 			f := strings.Fields(rest)
 			if len(f) >= 1 {
 				db.Methods[f[0]] = true
@@ -341,7 +367,7 @@ func (db *SpecDB) LoadSpecFile(path string) error {
 	return nil
 }
 
-var keywords = map[string]bool{"global": true, "func": true, "extern": true, "method": true, "ufun": true, "fun": true, "axiom": true, "const": true,
+var keywords = map[string]bool{"functype": true, "global": true, "func": true, "extern": true, "method": true, "ufun": true, "fun": true, "axiom": true, "const": true,
 	"requires": true, "ensures": true, "panics": true, "assigns": true, "loop": true, "property": true, "inline": true, "pure": true,
 	"nosafety": true, "opaque": true, "params": true, "results": true, "calls": true, "frameprop": true, "trusted": true}
 
